@@ -61,7 +61,11 @@ def h(t, part):
         return f
 
     with notrace():
-        w = worlds.SWorld(asyncio_, async_handlers=False, always_connect=part['always_connect'])
+        kw = {}
+        if part.get('manager') == 'pubsub':
+            from harness import c07
+            kw['client_manager'] = c07.make_manager(asyncio_, [])
+        w = worlds.SWorld(asyncio_, async_handlers=False, always_connect=part['always_connect'], **kw)
         for ns in ('/', '/a'):
             w.s.on('connect', mk('connect'), namespace=ns)
             w.s.on('ev', mk('event', 5), namespace=ns)
@@ -160,11 +164,15 @@ def h(t, part):
 
 def parts(tier):
     n = 3 if tier == 'quick' else 4
-    return [{'async': a, 'always_connect': ac, 'n': n, 'first': f}
+    out = [{'async': a, 'always_connect': ac, 'n': n, 'first': f}
+           for a in (False, True) for ac in (False, True) for f in range(len(OPS))]
+    # the same lives on a host of a pub/sub cluster (the claim is made for the host that owns the client)
+    out += [{'async': a, 'always_connect': ac, 'n': n - 1, 'first': f, 'manager': 'pubsub'}
             for a in (False, True) for ac in (False, True) for f in range(len(OPS))]
+    return out
 
 
-CHECKS = [dict(name='residue', fn=h, parts=parts, budget={'quick': 75, 'thorough': 900}, per_path_s=20)]
+CHECKS = [dict(name='residue', fn=h, parts=parts, budget={'quick': 180, 'thorough': 900}, per_path_s=20)]
 
 META = dict(
     explanation='Real Server/AsyncServer + Manager: a client life of bounded length with a symbolic fault position '
@@ -176,7 +184,7 @@ META = dict(
                      'bystander in a room on /' % (OPS,),
             'thorough': 'same with 4 operations'},
     outside=['heap-size measurement (the memory clause is claimed as state equality with a fresh server)',
-             'pub/sub managers', 'async_handlers=True (background handlers; the cleanup path is the same)'],
+             'pub/sub managers beyond lives of n-1 operations on the owning host', 'async_handlers=True (background handlers; the cleanup path is the same)'],
     stubs=['engine.io server -> FakeEio/FakeAEio (contains exceptions of the three callbacks like engineio/server.py:445-471)',
            'JSON text -> TokJson', 'asyncio -> vf.miniloop (FIFO)'],
     assumptions=['a raising handler raises an Exception subclass', 'at most one handler invocation raises per life'],
